@@ -76,6 +76,7 @@ type FuncContract struct {
 	NoSharedAppend bool
 	GhostSets      []*GhostSet // ghost assignments performed at the function's exit (definitional, not proof obligations)
 	IterBody       bool        // the function returns a function literal (iterator): its body is verified as part of this unit
+	Closures       []*ClosureContract
 	GoBodies       bool // bodies of go statements with function literals are executed (thread-modular, no interference)
 }
 
@@ -91,6 +92,14 @@ type CallsiteClause struct {
 	CallText string
 	Req      *Clause
 	Stmt     bool // "at": the text is the beginning of a statement; the clause is proved just before it and then assumed
+}
+
+// ClosureContract: postconditions of a function literal of the function (matched by the beginning of its source text). The
+// literal's body is executed once, with arbitrary parameters, where the literal is created; its effects are discarded.
+type ClosureContract struct {
+	Text    string
+	Results []string
+	Ensures []*Clause
 }
 
 // Capture names the i-th result of the (last executed) call whose source text starts with CallText.
@@ -176,7 +185,7 @@ var clauseKeywords = map[string]bool{
 	"writes": true, "loop": true, "invariant": true, "decreases": true, "param": true,
 	"inline": true, "terminates": true, "pure": true, "purerec": true, "axiom": true,
 	"ghost": true, "ghostfn": true, "lemma": true, "extern": true, "functype": true,
-	"trusted": true, "opaque": true, "noshare": true, "ghostparam": true, "check": true, "bind": true, "behavior": true, "assumes": true, "callsite": true, "capture": true, "iterbody": true, "index": true, "use": true, "ghostset": true, "at": true, "gobodies": true,
+	"trusted": true, "opaque": true, "noshare": true, "ghostparam": true, "check": true, "bind": true, "behavior": true, "assumes": true, "callsite": true, "capture": true, "iterbody": true, "index": true, "use": true, "ghostset": true, "at": true, "gobodies": true, "closure": true,
 }
 
 // rewriteImplies converts "A ==> B" to "implies(A, B)" and "A <==> B" to "iff(A,B)" at every nesting level.
@@ -443,7 +452,11 @@ func (cs *Contracts) loadFile(path, pkgPath string) error {
 	var curLoop *LoopContract
 	var curParam *ParamContract
 	var curBeh *Behavior
+	var curClosure *ClosureContract
 	for _, l := range lines {
+		if l.kw == "func" || l.kw == "param" || l.kw == "loop" || l.kw == "behavior" {
+			curClosure = nil
+		}
 		if l.kw == "func" || l.kw == "extern" || l.kw == "pure" || l.kw == "purerec" || l.kw == "lemma" || l.kw == "ghost" || l.kw == "ghostfn" || l.kw == "axiom" || l.kw == "functype" {
 			curBeh = nil
 		}
@@ -502,6 +515,25 @@ func (cs *Contracts) loadFile(path, pkgPath string) error {
 			cur.Terminates = true
 		case "gobodies":
 			cur.GoBodies = true
+		case "closure":
+			// closure "literal text prefix" returns (a, b)
+			rest := strings.TrimSpace(l.rest)
+			if !strings.HasPrefix(rest, "\"") {
+				return fmt.Errorf("%s: closure syntax: closure \"text\" returns (names)", l.where)
+			}
+			j := closingQuote(rest[1:])
+			if j < 0 {
+				return fmt.Errorf("%s: closure: unterminated text", l.where)
+			}
+			cl := &ClosureContract{Text: strings.ReplaceAll(rest[1:1+j], "\\\"", "\"")}
+			rest = strings.TrimSpace(rest[2+j:])
+			if strings.HasPrefix(rest, "returns") {
+				cl.Results, _ = splitParams(strings.Trim(strings.TrimSpace(strings.TrimPrefix(rest, "returns")), "()"))
+			}
+			cur.Closures = append(cur.Closures, cl)
+			curClosure = cl
+			curParam, curLoop = nil, nil
+			continue
 		case "iterbody":
 			cur.IterBody = true
 		case "noshare":
@@ -652,6 +684,8 @@ func (cs *Contracts) loadFile(path, pkgPath string) error {
 				curLoop.Decreases = c
 			case curParam != nil && l.kw == "requires":
 				curParam.Requires = append(curParam.Requires, c)
+			case curClosure != nil && l.kw == "ensures":
+				curClosure.Ensures = append(curClosure.Ensures, c)
 			case curParam != nil && l.kw == "ensures":
 				curParam.Ensures = append(curParam.Ensures, c)
 			case l.kw == "requires":
